@@ -198,7 +198,9 @@ func ProcessSearchTracesRequest(ctx *fasthttp.RequestCtx, myid int64) {
 	filters = utils.Transform(traces, func(t *structs.Trace) string {
 		return fmt.Sprintf(`trace_id="%s"`, t.TraceId)
 	})
-	searchRequestBody.SearchText = fmt.Sprintf(`%s | stats count as count by status, trace_id`,
+	// A span that was delivered more than once (a retried export) is stored more
+	// than once; count the distinct span ids, like the span tree of the trace does.
+	searchRequestBody.SearchText = fmt.Sprintf(`%s | stats dc(span_id) as count by status, trace_id`,
 		strings.Join(filters, " OR "))
 	pipeSearchResponseOuter, err = processSearchRequest(searchRequestBody, myid)
 	if err != nil {
